@@ -231,4 +231,16 @@ def ref_series_assign(assign, value, fill_value, result):
     return True
 
 
-REFS = dict(ref_series_assign=ref_series_assign, ref_has_missing=ref_has_missing, ref_index_equals=ref_index_equals, ref_series_equals=ref_series_equals, ref_set_fold=ref_set_fold, labels_of_array=labels_of_array, ref_map_slice_args=ref_map_slice_args, ref_windows=ref_windows, observed_windows=observed_windows, windows_agree=windows_agree, ref_tb_equals=ref_tb_equals, ref_slices_from_targets=ref_slices_from_targets)
+def ref_ih_coherent(h):
+    """object invariant of an IndexHierarchy: a label table that is not flagged stale lists exactly the tuples of the label tree"""
+    h = getattr(h, 'obj', h)
+    if h._blocks is None:
+        return bool(h._recache)
+    if h._recache:
+        return True
+    rows = [tuple(r) for r in h._blocks.values.tolist()] if h._blocks.shape[0] else []
+    tree = [tuple(x.item() if hasattr(x, 'item') else x for x in t) for t in h._levels]
+    return rows == tree
+
+
+REFS = dict(ref_ih_coherent=ref_ih_coherent, ref_series_assign=ref_series_assign, ref_has_missing=ref_has_missing, ref_index_equals=ref_index_equals, ref_series_equals=ref_series_equals, ref_set_fold=ref_set_fold, labels_of_array=labels_of_array, ref_map_slice_args=ref_map_slice_args, ref_windows=ref_windows, observed_windows=observed_windows, windows_agree=windows_agree, ref_tb_equals=ref_tb_equals, ref_slices_from_targets=ref_slices_from_targets)
